@@ -58,6 +58,37 @@ class Differs(Exception):
     pass
 
 
+# --- several routes to one modelled operation: a per-case counter the model does not see (reset at `#`)
+ROUTE = [0]
+
+
+def route(n):
+    ROUTE[0] += 1
+    return ROUTE[0] % n
+
+
+# --- histories: every result object a call returned is kept (uncopied) until the end of the case and re-read after every op
+KEPT = []
+
+
+def keep(label, obj, digest_fn):
+    if len(KEPT) < 60:
+        try:
+            KEPT.append((label, obj, digest_fn, digest_fn(obj)))
+        except Exception:  # noqa: BLE001
+            pass
+
+
+def kept_state():
+    for label, obj, fn, d0 in KEPT:
+        try:
+            if fn(obj) != d0:
+                return "changed:" + label
+        except Exception as e:  # noqa: BLE001
+            return "unreadable:" + label + ":" + type(e).__name__
+    return "ok"
+
+
 class UnknownOp(Exception):
     pass
 
@@ -80,10 +111,61 @@ def canon(x):
     return x
 
 
+REF_MODE = {}
+
+
+def dig_sig_ref(x):
+    """a signature inside a kept result: its content when it is frozen (must stay), its identity when it was mutable at the
+    time the result was kept (the caller may legitimately change his own object later)"""
+    try:
+        mode = REF_MODE.setdefault(id(x), isinstance(x, sigmod.FrozenSourmashSignature))
+        return sig_digest(x) if mode else ("mutable", id(x))
+    except Exception as e:  # noqa: BLE001
+        return ("unreadable", type(e).__name__)
+
+
+def dig_results(lst):
+    return [(r.score, dig_sig_ref(r.signature), str(r.location)) for r in lst]
+
+
 def ro(name, objs):
     """one read-only API call over the given MinHash objects; returns a canonical result"""
     a = objs[0]
     b = objs[1] if len(objs) > 1 else objs[0]
+    if name == "eq2":
+        return a == b, b == a, a == a, a != b if hasattr(a, "__ne__") else None
+    if name == "seqhashes":
+        sq = "ACGTTGCATGCATGCAAGCTAGCTAGGATCCA"
+        return (a.seq_to_hashes(sq), a.seq_to_hashes(sq, force=True, bad_kmers_as_zeroes=True),
+                [(k, h) for k, h in a.kmers_and_hashes(sq)])
+    if name == "getters":
+        return (a.get_mins(), a.get_mins(with_abundance=True) if a.track_abundance else None, a._max_hash, a.moltype, a.ksize,
+                a.is_dna, a.is_protein, a.dayhoff, a.hp, a.seed, a.unique_dataset_hashes if a.scaled else None,
+                a.size_is_accurate() if a.scaled else None, a.std_abundance if a.track_abundance else None,
+                repr(a.hashes)[:40] != "", a.hashes == a.hashes, bool(a))
+    if name == "inflate":
+        return a.inflate(b)
+    if name == "hashesset":
+        hs = a.hashes
+        before = dict(hs)
+        try:
+            hs[12345] = 7
+            out = "accepted"
+        except RuntimeError:
+            out = "refused"
+        if dict(a.hashes) != before:
+            raise Differs("assignment into .hashes changed the sketch")
+        return out
+    if name == "cac":
+        c = a.copy_and_clear()
+        if c is a:
+            raise Differs("copy_and_clear returned the object itself")
+        c.add_hash(1)
+        return len(a), c.track_abundance, c.num, c._max_hash
+    if name == "fdn":
+        from sourmash.minhash import flatten_and_downsample_num
+        r = flatten_and_downsample_num(a, b.num)
+        return cell(r), (r is a)
     if name == "cc":
         return a.count_common(b, True), b.count_common(a, True)
     if name == "sim":
@@ -110,7 +192,8 @@ def ro(name, objs):
         from sourmash.minhash import flatten_and_downsample_scaled, flatten_and_intersect_scaled
         return flatten_and_downsample_scaled(a, b.scaled), flatten_and_intersect_scaled(a, b)
     if name == "ani":
-        return str(a.containment_ani(b, downsample=True)), str(a.jaccard_ani(b, downsample=True))
+        return (str(a.containment_ani(b, downsample=True)), str(a.jaccard_ani(b, downsample=True)),
+                str(a.max_containment_ani(b, downsample=True)), str(a.avg_containment_ani(b, downsample=True)))
     # --- signature / collection level: build signatures from the objects, digest them before and after
     sigs = [SourmashSignature(o, name=f"s{i}") for i, o in enumerate(objs)]
     if name.endswith("m"):
@@ -492,6 +575,72 @@ def world(T, S, V):
     return " ".join(out)
 
 
+def agreement(T, S, V):
+    """what can be read about an object through two routes must agree (asserted after EVERY op)"""
+    try:
+        for h in sorted(T):
+            mh = T[h]
+            hs = mh.hashes
+            keys = list(hs.keys())
+            if not (len(mh) == len(hs) == len(keys) == len(list(iter(hs)))):
+                return f"len:{h}"
+            if keys != sorted(keys) or keys != list(mh.get_mins()):
+                return f"mins:{h}"
+            if mh.track_abundance and dict(mh.get_mins(with_abundance=True)) != dict(hs):
+                return f"abund:{h}"
+            if bool(mh) != (len(keys) > 0):
+                return f"bool:{h}"
+        for h in sorted(S):
+            ss = S[h]
+            try:
+                mh = ss.minhash
+            except Exception:  # noqa: BLE001
+                continue
+            from sourmash.utils import decode_str
+            from sourmash._lowlevel import lib as _lib
+            if ss.md5sum() != decode_str(mh._methodcall(_lib.kmerminhash_md5sum)) or hash(ss) != hash(ss.md5sum()) or len(ss) != 1:
+                return f"sig:{h}"
+            if str(ss) != (ss.name or ss.filename or ss.md5sum()[:8]) or ss._name != ss.name:
+                return f"signame:{h}"
+        for h in sorted(V):
+            v = V[h]
+            k = kind_of(v)
+            try:
+                sigs = list(v.signatures())
+            except Exception:  # noqa: BLE001
+                continue
+            try:
+                withloc = list(v.signatures_with_location())
+            except Exception:  # noqa: BLE001   (a MultiIndex with prepend_location over rows without a location: TypeError, in the dump)
+                withloc = None
+            if withloc is not None and sorted(sig_digest(x) for x in sigs) != sorted(sig_digest(x) for x, _ in withloc):
+                return f"swl:v{h}"
+            if k in ("linear", "lazy", "zipnm", "zipm", "multi", "standalone", "sqlite", "lcasql"):
+                if len(v) != len(sigs):
+                    return f"len:v{h}"
+            if k in ("linear", "lazy", "zipnm", "zipm", "multi", "standalone", "sqlite", "lcasql", "sbt", "sbtdisk", "lca"):
+                if bool(v) != (len(sigs) > 0) and k not in ("sbt", "sbtdisk", "lca"):
+                    return f"bool:v{h}"
+            m = getattr(v, "manifest", None)
+            if m is not None and k in ("zipm", "standalone", "sqlite", "lcasql"):
+                rows = sorted((r["md5"], r["name"] or "", int(r["n_hashes"]), bool(r["with_abundance"]), int(r["scaled"]), int(r["num"]))
+                              for r in m.rows)
+                have = sorted((x.md5sum(), x.name or "", len(x.minhash), bool(x.minhash.track_abundance), int(x.minhash.scaled),
+                               int(x.minhash.num)) for x in sigs)
+                if rows != have:
+                    return f"rows:v{h}"
+            if m is not None and k == "multi":
+                for r in m.rows:
+                    sg = r.get("signature")
+                    # (a row made from a signature that was MUTABLE then may legitimately be stale: the caller renamed his object)
+                    if sg is not None and REF_MODE.setdefault(("row", id(r)), isinstance(sg, sigmod.FrozenSourmashSignature)):
+                        if r["md5"] != sg.md5sum() or (r["name"] or "") != (sg.name or "") or int(r["n_hashes"]) != len(sg.minhash):
+                            return f"row-vs-sig:v{h}"
+        return "ok"
+    except Exception as e:  # noqa: BLE001
+        return "exc:" + type(e).__name__
+
+
 def mins_of(ss):
     return tuple(ss.minhash.hashes.keys())
 
@@ -575,6 +724,10 @@ def sig_ro(name, sigs):
         return a == b, a != b
     if name == "sim":
         return a.similarity(b, downsample=True), a.jaccard(b), a.contained_by(b, downsample=True), a.max_containment(b, downsample=True)
+    if name == "anis":
+        return (str(a.jaccard_ani(b, downsample=True)), str(a.containment_ani(b, downsample=True)),
+                str(a.max_containment_ani(b, downsample=True)), a.avg_containment(b, downsample=True),
+                str(a.avg_containment_ani(b, downsample=True)), a.license, a._name, len(a), a != b)
     if name == "save":
         js = sigmod.save_signatures_to_json(sigs)
         return js, [sig_digest(x) for x in sigmod.load_signatures_from_json(js)]
@@ -655,6 +808,8 @@ def view_ro(name, v, qs):
         return sorted(map(str, pl.pickset))
     if q is None:
         raise UnknownOp("query")
+    if name == "cgather" and False:
+        pass
     if name == "cgather":
         # CounterGather built FROM the view (counter_gather = prefetch + add), driven by hand, then the source view again
         before = observe(v, q)
@@ -671,6 +826,9 @@ def view_ro(name, v, qs):
             cur = cur.to_mutable()
             cur.remove_many(inter)
         held = sorted(sig_digest(x) for x in cg.signatures())
+        uf = cg.union_found
+        keep("CounterGather", cg, lambda c: sorted(dig_sig_ref(x) for x in c.signatures()))
+        steps.append(cell(uf))
         for _ in range(2):
             if observe(v, q) != before:
                 raise ViewChanged("after counter_gather / peek / consume")
@@ -693,12 +851,61 @@ def view_ro(name, v, qs):
         if head + rest != ref1 or mid != ref2 or sorted(mid_child) != sorted(ref2):
             raise Differs("interleaved search gave other results")
         return ref1, ref2
+    if name == "searchab":
+        got = v.search_abund(q, threshold=0.0)
+        keep("search_abund", got, dig_results)
+        return dig_results(got)
+    if name in ("results", "results2"):
+        # the result classes the commands build on top of search / prefetch / gather (each part on its own: a refusal of one
+        # -- an abundance query, an incompatible sketch -- must not hide the others)
+        from sourmash.search import (search_databases_with_flat_query, search_databases_with_abund_query, prefetch_database)
+        out = []
+        dig_sr = lambda lst: [(sorted((k, str(x)) for k, x in r.resultdict.items()), r.score) for r in lst]
+        dig_pr = lambda lst: [sorted((k, str(x)) for k, x in r.prefetchresultdict.items()) for r in lst]
+        # (reading `prefetchresultdict` of a GatherResult shortens its `md5` in place, so `gatherresultdict` reads differently
+        #  afterwards: finding C15.5.  `results` reads the gather columns only; `results2` -- corpus -- reads both.)
+        if name == "results2":
+            dig_gr = lambda lst: [(sorted((k, str(x)) for k, x in r.gatherresultdict.items()),
+                                   sorted((k, str(x)) for k, x in r.prefetchresultdict.items())) for r in lst]
+        else:
+            dig_gr = lambda lst: [sorted((k, str(x)) for k, x in r.gatherresultdict.items()) for r in lst]
+
+        def part(label, make, dig):
+            try:
+                got = make()
+                keep(label, got, dig)
+                d = dig(got)
+                if got and hasattr(got[0], "init_dictwriter"):
+                    fp = io.StringIO()
+                    w = got[0].init_dictwriter(fp)
+                    for r in got:
+                        r.write(w)
+                    d = (d, fp.getvalue())
+                out.append(d)
+            except Exception as e:  # noqa: BLE001
+                out.append("exc:" + type(e).__name__)
+
+        fq = q.to_frozen()
+        if q.minhash.track_abundance:
+            part("SearchResult", lambda: search_databases_with_abund_query(q, [v], threshold=0.0), dig_sr)
+            with fq.update() as fq2:
+                fq2.minhash = fq2.minhash.flatten()
+            fq = fq2
+        part("SearchResult", lambda: search_databases_with_flat_query(fq, [v], threshold=0.0, do_containment=True), dig_sr)
+        part("SearchResult", lambda: search_databases_with_flat_query(fq, [v], threshold=0.0), dig_sr)
+        part("PrefetchResult", lambda: list(prefetch_database(fq, v, 0)), dig_pr)
+        part("GatherResult", lambda: list(GatherDatabases(q, [v.counter_gather(q, 0)], threshold_bp=0)), dig_gr)
+        return out
     if name == "search":
-        return [(r.score, sig_digest(r.signature)) for r in v.search(q, threshold=0.0)]
+        got = v.search(q, threshold=0.0) if route(2) else list(v.find(make_jaccard(), q))
+        keep("search", got, dig_results)
+        return sorted((r.score, sig_digest(r.signature)) for r in got)
     if name == "searchc":
         return [(r.score, sig_digest(r.signature)) for r in v.search(q, threshold=0.0, do_containment=True)]
     if name == "prefetch":
-        return sorted((r.score, sig_digest(r.signature)) for r in v.prefetch(q, 0))
+        got = list(v.prefetch(q, 0))
+        keep("prefetch", got, dig_results)
+        return sorted((r.score, sig_digest(r.signature)) for r in got)
     if name == "best":
         r = v.best_containment(q, threshold_bp=0)
         return None if r is None else (r.score, sig_digest(r.signature))
@@ -823,7 +1030,13 @@ def view_save(name, v, qs):
     return before
 
 
-MF_OPS = ("add", "eq", "in", "select", "filter", "misc", "combine", "wrap", "getmf")
+MF_OPS = ("add", "eq", "in", "select", "filter", "misc", "combine", "wrap", "getmf", "iadd", "helpers")
+
+
+def make_jaccard():
+    from sourmash.search import make_jaccard_search_query
+    return make_jaccard_search_query(threshold=0.0)
+
 
 
 def two_views_ro(name, va, vb, sigs):
@@ -853,6 +1066,25 @@ def two_views_ro(name, va, vb, sigs):
         if isinstance(va, ZipFileLinearIndex):
             z = ZipFileLinearIndex(va.storage, manifest=m, use_manifest=True)
             res.append(sorted(sig_digest(x) for x in z.select(ksize=21).signatures()))
+    elif name == "helpers":
+        # the helper functions the `sig fileinfo / check / collect / extract / grep` commands call on a loaded collection
+        from sourmash import sourmash_args as sa
+        from sourmash.sig.__main__ import _summarize_manifest
+        res = []
+        for x in (va, vb):
+            inplace = kind_of(x) in ("sbt", "sbtdisk", "lca")
+            m = sa.get_manifest(x, require=False, rebuild=False)
+            res.append(None if m is None else sorted(map(str, _summarize_manifest(m)["sketch_info"])))
+            m2 = sa.get_manifest(x, require=False, rebuild=True)
+            res.append(None if m2 is None else (_summarize_manifest(m2)["total_hashes"], len(m2)))
+            if not inplace:                      # (on SBT / LCA_Database select narrows in place, by design)
+                pl = SignaturePicklist("name")
+                pl.init(["a", "b"])
+                y = sa.apply_picklist_and_pattern(x, pl, None)
+                res.append(sorted(sig_digest(z) for z in y.signatures()))
+                if getattr(x, "manifest", None) is not None:
+                    y2 = sa.apply_picklist_and_pattern(x, None, lambda vals: any("a" in str(t) for t in vals))
+                    res.append(sorted(sig_digest(z) for z in y2.signatures()))
     elif name == "getmf":
         from sourmash.sourmash_args import get_manifest
         res = [mf_rows(get_manifest(x, require=False, rebuild=rb)) if get_manifest(x, require=False, rebuild=rb) is not None else None
@@ -878,7 +1110,16 @@ def manifest_ro(name, a, b, sigs):
     """read-only calls on manifests a (receiver) and b"""
     if name == "add":
         x, y, z = a + b, b + a, a + a
+        keep("manifest-sum", x, mf_rows)
         return mf_rows(x), mf_rows(y), mf_rows(z), len(x), len(y), len(z)
+    if name == "iadd":
+        # `+=` / add_row on a FRESH manifest built from a's rows: a and b themselves are only read
+        m = CollectionManifest(a.rows)
+        m += b
+        for r in list(b.rows)[:1]:
+            m.add_row(r)
+        keep("manifest-iadd", m, mf_rows)
+        return mf_rows(m), len(m), mf_rows(a), mf_rows(b)
     if name == "eq":
         return a == b, b == a, a == a, bool(a), bool(b)
     if name == "in":
@@ -934,7 +1175,19 @@ def obj_op(op, a, T, S, V):
     i = int
     check_syntax(op, a)
     if op == "snew":
-        S[i(a[0])] = SourmashSignature(T[i(a[1])], name=name_tok(a[2]), filename=name_tok(a[3]))
+        mh_, nm_, fn_ = T[i(a[1])], name_tok(a[2]), name_tok(a[3])
+        k = route(3)
+        if k == 0:
+            x = SourmashSignature(mh_, name=nm_, filename=fn_)
+        elif k == 1:
+            x = SourmashSignature(mh_, nm_, fn_)
+        else:
+            x = SourmashSignature(mh_)
+            if nm_:
+                x.name = nm_
+            if fn_:
+                x.filename = fn_
+        S[i(a[0])] = x
     elif op == "smh":
         T[i(a[0])] = S[i(a[1])].minhash
     elif op == "ssetmh":
@@ -942,14 +1195,20 @@ def obj_op(op, a, T, S, V):
         S[i(a[0])].minhash = mh
     elif op == "sname":
         x = name_tok(a[1])
-        S[i(a[0])].name = x
+        if route(2):
+            S[i(a[0])].name = x
+        else:
+            S[i(a[0])]._name = x
     elif op == "sfile":
         x = name_tok(a[1])
         S[i(a[0])].filename = x
     elif op == "saddseq":
         if a[1] not in ("0", "1") or not SEQ_RE.match(a[2]):
             raise UnknownOp("seq")
-        S[i(a[0])].add_sequence(a[2], bool(i(a[1])))
+        if route(2):
+            S[i(a[0])].add_sequence(a[2], bool(i(a[1])))
+        else:
+            S[i(a[0])].add_sequence(a[2], force=bool(i(a[1])))
     elif op == "saddprot":
         if not SEQ_RE.match(a[1]):
             raise UnknownOp("seq")
@@ -964,9 +1223,17 @@ def obj_op(op, a, T, S, V):
     elif op == "stofrozen":
         x = S[i(a[1])].to_frozen(); S[i(a[0])] = x
     elif op == "scopy":
-        x = S[i(a[1])].copy(); S[i(a[0])] = x
+        import copy as _copy
+        src = S[i(a[1])]
+        k = route(3)
+        x = src.copy() if k == 0 else (_copy.copy(src) if k == 1 else src.__copy__())
+        S[i(a[0])] = x
     elif op == "spickle":
-        x = pickle.loads(pickle.dumps(S[i(a[1])])); S[i(a[0])] = x
+        import copy as _copy
+        src = S[i(a[1])]
+        k = route(3)
+        x = pickle.loads(pickle.dumps(src)) if k == 0 else (_copy.deepcopy(src) if k == 1 else pickle.loads(pickle.dumps(src, 2)))
+        S[i(a[0])] = x
     elif op == "supdflat":
         src = S[i(a[1])]
         with src.update() as q:
@@ -994,11 +1261,21 @@ def obj_op(op, a, T, S, V):
         sigs = [S[i(h)] for h in a[1:]]
         if not sigs:
             raise UnknownOp("no operands")
-        if a[0] not in ("md5", "eq", "sim", "save", "pickle", "copies", "mhmut", "compare", "insertinto"):
+        if a[0] not in ("md5", "eq", "sim", "save", "pickle", "copies", "mhmut", "compare", "insertinto", "anis"):
             raise UnknownOp(a[0])
         return twice(lambda: sig_ro(a[0], sigs))
     elif op == "vlinear":
-        V[i(a[0])] = LinearIndex([S[i(h)] for h in a[1:]])
+        members = [S[i(h)] for h in a[1:]]
+        k = route(3)
+        if k == 0:
+            x = LinearIndex(members)
+        elif k == 1:
+            x = LinearIndex(iter(members))
+        else:
+            x = LinearIndex()
+            for m_ in members:
+                x.insert(m_)
+        V[i(a[0])] = x
     elif op == "vlazy":
         db = V[i(a[1])]
         if not isinstance(db, LinearIndex) or not all(any(x is y for y in S.values()) for x in db._signatures):
@@ -1079,7 +1356,7 @@ def obj_op(op, a, T, S, V):
         sigs = [S[i(h)] for h in a[3:]]
         if a[0] not in MF_OPS:
             raise UnknownOp(a[0])
-        if a[0] in ("combine", "wrap", "getmf"):
+        if a[0] in ("combine", "wrap", "getmf", "helpers"):
             return twice(lambda: two_views_ro(a[0], va, vb, sigs))
         return twice(lambda: manifest_ro(a[0], va.manifest, vb.manifest, sigs))
     elif op == "vmultiof":
@@ -1231,6 +1508,15 @@ def obj_op(op, a, T, S, V):
         if kind_of(v) in ("linear", "multi", "lazy") and has_private(v, S):
             raise UnknownOp("domain")
         got = list(v.signatures())
+        if route(2):
+            try:       # the other route to the same objects (a MultiIndex with prepend_location and no location cannot take it)
+                alt = [x for x, _ in v.signatures_with_location()]
+            except TypeError:
+                alt = None
+            if alt is not None:
+                if [sig_digest(x) for x in alt] != [sig_digest(x) for x in got]:
+                    raise Differs("signatures() and signatures_with_location() hand out different signatures")
+                got = alt
         if i(a[2]) >= len(got):
             return "err IndexError"
         S[i(a[0])] = got[i(a[2])]
@@ -1239,7 +1525,8 @@ def obj_op(op, a, T, S, V):
         qs = [S[i(h)] for h in a[2:]]
         if a[0] in SAVES:
             return twice(lambda: view_save(a[0], v, qs))
-        if a[0] not in ("sigs", "locs", "manifest", "picklist", "search", "searchc", "prefetch", "best", "gather", "gatheri", "interleave", "cgather"):
+        if a[0] not in ("sigs", "locs", "manifest", "picklist", "search", "searchc", "prefetch", "best", "gather", "gatheri", "interleave", "cgather",
+                        "searchab", "results", "results2"):
             raise UnknownOp(a[0])
         return twice(lambda: view_ro(a[0], v, qs))
     else:
@@ -1265,6 +1552,9 @@ def main():
         if op == "#":
             T, S, V = {}, {}, {}
             drop_tmp()
+            ROUTE[0] = 0
+            del KEPT[:]
+            REF_MODE.clear()
             out.write("#\n")
             continue
         res = "ok"
@@ -1275,17 +1565,56 @@ def main():
                 r, num, scaled, track = map(int, a)
                 T[r] = MinHash(num, 21, track_abundance=bool(track), scaled=scaled)
             elif op == "add":
-                T[int(a[0])].add_hash(int(a[1]))
+                if route(2):
+                    T[int(a[0])].add_hash(int(a[1]))
+                else:
+                    T[int(a[0])].add_many([int(a[1])])
+            elif op == "addseq":
+                if a[1] not in ("0", "1") or not SEQ_RE.match(a[2]):
+                    raise UnknownOp("seq")
+                x = T[int(a[0])]
+                if a[1] == "0" and len(a[2]) == 21 and route(2):
+                    x.add_kmer(a[2])
+                elif route(2):
+                    x.add_sequence(a[2], bool(int(a[1])))
+                else:
+                    x.add_sequence(a[2], force=bool(int(a[1])))
+            elif op == "addprot":
+                if not SEQ_RE.match(a[1]):
+                    raise UnknownOp("seq")
+                T[int(a[0])].add_protein(a[1])
             elif op == "addab":
                 T[int(a[0])].add_hash_with_abundance(int(a[1]), int(a[2]))
             elif op == "addmany":
-                T[int(a[0])].add_many([int(x) for x in a[1:]])
+                vals = [int(x) for x in a[1:]]
+                k = route(3)
+                if k == 0:
+                    T[int(a[0])].add_many(vals)
+                elif k == 1:
+                    T[int(a[0])].add_many(tuple(vals))
+                else:
+                    x = T[int(a[0])]
+                    if isinstance(x, FrozenMinHash):
+                        x.add_many(vals)
+                    else:
+                        for v_ in vals:
+                            x.add_hash(v_)
             elif op == "rm":
                 T[int(a[0])].remove_many([int(x) for x in a[1:]])
             elif op == "clear":
                 T[int(a[0])].clear()
             elif op == "merge":
-                T[int(a[0])].merge(T[int(a[1])])
+                k = route(3)
+                x, y = T[int(a[0])], T[int(a[1])]
+                if k == 0:
+                    x.merge(y)
+                elif k == 1:
+                    z = x
+                    z += y
+                    if z is not x:
+                        raise Differs("+= returned another object")
+                else:
+                    x.__iadd__(y)
             elif op == "setab":
                 vals = {}
                 for p in a[2:]:
@@ -1297,21 +1626,31 @@ def main():
             elif op == "intofrozen":
                 T[int(a[0])].into_frozen()
             elif op == "tomut":
-                x = T[int(a[1])].to_mutable(); T[int(a[0])] = x
+                src = T[int(a[1])]
+                x = src.__copy__() if (not isinstance(src, FrozenMinHash) and route(2)) else src.to_mutable()
+                T[int(a[0])] = x
             elif op == "tofrozen":
                 x = T[int(a[1])].to_frozen(); T[int(a[0])] = x
             elif op == "copy":
-                x = T[int(a[1])].copy(); T[int(a[0])] = x
+                import copy as _copy
+                src = T[int(a[1])]
+                k = route(3)
+                x = src.copy() if k == 0 else (_copy.copy(src) if k == 1 else src.__copy__())
+                T[int(a[0])] = x
             elif op == "flat":
                 x = T[int(a[1])].flatten(); T[int(a[0])] = x
             elif op == "down":
                 x = T[int(a[1])].downsample(scaled=int(a[2])); T[int(a[0])] = x
             elif op == "sigmh":
-                x = SourmashSignature(T[int(a[1])]).minhash; T[int(a[0])] = x
+                x = (SourmashSignature(T[int(a[1])]) if route(2) else
+                     SourmashSignature(T[int(a[1])], name="n", filename="f")).minhash
+                T[int(a[0])] = x
             elif op == "plus":
-                x = T[int(a[1])] + T[int(a[2])]; T[int(a[0])] = x
+                x = (T[int(a[1])] + T[int(a[2])]) if route(2) else (T[int(a[1])] | T[int(a[2])])
+                T[int(a[0])] = x
             elif op == "inter":
-                x = T[int(a[1])] & T[int(a[2])]; T[int(a[0])] = x
+                x = (T[int(a[1])] & T[int(a[2])]) if route(2) else T[int(a[1])].intersection(T[int(a[2])])
+                T[int(a[0])] = x
             elif op == "ro":
                 objs = [T[int(h)] for h in a[1:]]
                 if not objs:
@@ -1344,7 +1683,7 @@ def main():
         if res == "bad-op":
             out.write("bad-op\n")
         else:
-            out.write(res + " | " + world(T, S, V) + "\n")
+            out.write(res + " | " + (world(T, S, V) + " ").lstrip() + "A=" + agreement(T, S, V) + " K=" + kept_state() + "\n")
     out.flush()
     drop_tmp()
 
